@@ -380,4 +380,46 @@ theorem boundOKIv_of_windows (I B S : Int) (tr : List (Int × Int × Int))
     omega
   · simp [hpq]
 
+/-! ## The task handler (`runTasks`): process starts are a sublist of the grants -/
+
+theorem runTasks_sublist (l : Lim) (s : LState) (tks : List HookRunTask) :
+    (runTasks l s tks).Sublist (grants l s (tks.map (·.t))) := by
+  induction tks generalizing s with
+  | nil => simp [runTasks, grants]
+  | cons tk tks ih =>
+    simp only [runTasks, handleHookRun, List.map_cons, grants]
+    cases hr : reserve l s tk.t with
+    | mk s' g =>
+      cases g with
+      | none => simpa using ih s'
+      | some g =>
+        by_cases hc : tk.kind = .synchronization ∧ tk.runOnSync = false
+        · simp only [hc, and_self, if_true, List.nil_append]
+          exact List.Sublist.cons _ (ih s')
+        · simp only [hc, if_false, hookRun, List.singleton_append]
+          exact List.Sublist.cons_cons _ (ih s')
+
+theorem runTasks_eq_grants (l : Lim) (s : LState) (tks : List HookRunTask)
+    (hrun : ∀ tk ∈ tks, ¬ (tk.kind = .synchronization ∧ tk.runOnSync = false)) :
+    runTasks l s tks = grants l s (tks.map (·.t)) := by
+  induction tks generalizing s with
+  | nil => simp [runTasks, grants]
+  | cons tk tks ih =>
+    have h1 := hrun tk (by simp)
+    have h2 : ∀ tk ∈ tks, ¬ (tk.kind = .synchronization ∧ tk.runOnSync = false) :=
+      fun x hx => hrun x (by simp [hx])
+    simp only [runTasks, handleHookRun, List.map_cons, grants]
+    cases hr : reserve l s tk.t with
+    | mk s' g =>
+      cases g with
+      | none => simpa using ih s' h2
+      | some g =>
+        simp only [h1, if_false, hookRun, List.singleton_append]
+        rw [ih s' h2]
+
+theorem countIn_sublist {as bs : List Int} (h : as.Sublist bs) (t T : Int) :
+    Spec.countIn as t T ≤ Spec.countIn bs t T := by
+  unfold Spec.countIn
+  exact (h.filter _).length_le
+
 end ShellOp.RateLimit
